@@ -286,3 +286,7 @@ def _r03_7(res, P, cfgname):
                     continue
             res.fail("R03.7", cfgname, key, "%s applies the truncating signed `%s` to `%s`, which may be negative here (exponents are): `x %% 2` is -1 for negative odd x and `/` rounds toward zero; the kernels use `& 1` / exact quotients" % (f["p"], {"Div": "/", "Rem": "%", "Shr": ">>"}[op], sym.term_str(a, 60)), span_loc(s["sp"]))
     res.floor("R03.7", cfgname, n, 1, "signed Div/Rem/Shr sites in dashu_float")
+
+
+LEVEL = LEVEL + ' Also (R03.6) the log2-estimate half test of round_fract is conservative (bound-polarity typing), (R03.7) no truncating signed `/ % >>` is applied to a possibly negative exponent, (R03.8) every half test compares a remainder with the divisor it came from.'
+TECHNIQUE = 'finite-domain tabulation of the rounding dispatch bodies against a definition oracle; dataflow rules (negation after rounding, Exact edges, own-context rounding); bound-polarity type system; half-test pairing by backward slices; signed-arithmetic inventory with non-negativity guards'
